@@ -11,6 +11,7 @@ import (
 	"testing"
 
 	"github.com/kafscale/platform/addons/processors/sql-processor/internal/checkpoint"
+	"github.com/kafscale/platform/addons/processors/sql-processor/internal/config"
 	"github.com/kafscale/platform/addons/processors/sql-processor/internal/decoder"
 	"github.com/kafscale/platform/addons/processors/sql-processor/internal/discovery"
 	"github.com/kafscale/platform/addons/processors/sql-processor/internal/sink"
@@ -125,3 +126,21 @@ func TestVF_C33_Witness(t *testing.T) {
 	defer st.Flush()
 	c33Witnesses(t, st, c33Mod, false, c33Exec)
 }
+
+// ---- module-specific hooks used by the shared real-lister / real-decoder legs ----------------
+
+func c33TestSetup(t *testing.T) {}
+
+func c33ListerConfig(ns, endpoint string) config.Config {
+	return config.Config{S3: config.S3Config{Bucket: c33ListBucket, Namespace: ns, Endpoint: endpoint, Region: "us-east-1", PathStyle: true}}
+}
+
+func c33NewProcessor(l discovery.Lister, d decoder.Decoder, s checkpoint.Store, w sink.Writer) *Processor {
+	return &Processor{discover: l, decode: d, store: s, sink: w, locks: newTopicLocker()}
+}
+
+func c33DecoderConfig(endpoint string) config.Config {
+	return config.Config{S3: config.S3Config{Bucket: c33Bucket, Region: "us-east-1", Endpoint: endpoint, PathStyle: true}}
+}
+
+func c33SinkValue(r sink.Record) []byte { return r.Payload }
